@@ -148,6 +148,56 @@ def generate(ctx):
         yield 'coverage', {}
 
 
+def _check_ions(ctx, el, sym, Z, m, rho, em):
+    """Round 8: atoms that carry a charge, and atoms that carry BOTH an isotope and a charge.  The mass is the
+    tabulated neutral mass less q electrons; the density is that of the neutral atom (element density, scaled by
+    the mass ratio for an isotope; unknown stays unknown).  The charge is asked with other kinds of whole numbers
+    (numpy unsigned / signed scalars) - on half of the elements as the very first request for that ion."""
+    import numpy as np
+    from periodictable import constants
+    me = constants.electron_mass
+    charges = list(getattr(el, 'ions', ()) or ())
+    if not charges:
+        return
+    isos = m.isotopes.get(Z, [])
+    parents = [(el, em, rho, sym)]
+    for A in ([isos[0], isos[-1]] if len(isos) > 1 else isos):
+        im = m.iso[(Z, A)][0]
+        parents.append((el[A], im, None if rho is None else rho * im / em, '%s[%d]' % (sym, A)))
+    for pi, (parent, pm, pr, label) in enumerate(parents):
+        for q in charges:
+            kinds = [np.uint8 if q > 0 else np.int8, np.int64, int, np.int16]
+            if (Z + pi) % 2:
+                kinds = [int] + kinds[:2] + kinds[3:]
+            first = None
+            for kind in kinds:
+                ctx.evaluated(3, 'ion-mass-density')
+                try:
+                    ion = parent.ion[kind(q)]
+                    got_m, got_r, got_q = ion.mass, ion.density, ion.charge
+                except Exception as exc:  # noqa
+                    ctx.violation('%s.ion[%s(%d)]: mass/density/charge raise %s: %s'
+                                  % (label, kind.__name__, q, type(exc).__name__, exc), field='ion', charge=q)
+                    continue
+                if first is None:
+                    first = ion
+                elif ion is not first:
+                    ctx.violation('%s.ion[%s(%d)] is another object than .ion[%s(%d)]'
+                                  % (label, kind.__name__, q, kinds[0].__name__, q), field='ion.identity', charge=q)
+                want_m = pm - q * me
+                if got_q != q or not ctx.close(got_m, want_m, rel=4e-16, name='ion_mass.relerr'):
+                    ctx.violation('%s.ion[%s(%d)]: charge %r, mass %r; table mass less %d electrons is %r'
+                                  % (label, kind.__name__, q, got_q, got_m, q, want_m), field='ion.mass', charge=q)
+                if pr is None:
+                    if got_r is not None:
+                        ctx.violation('density of %s.ion[%d] is %r though the element density is unknown'
+                                      % (label, q, got_r), field='ion.density', charge=q)
+                elif got_r is None or not ctx.close(got_r, pr, rel=1e-14, name='ion_density.relerr'):
+                    ctx.violation('density of %s.ion[%s(%d)] is %r, the neutral atom has %r'
+                                  % (label, kind.__name__, q, got_r, pr), field='ion.density', charge=q)
+    ctx.distinct_case(('ions', Z))
+
+
 def check_element(ctx, case):
     from periodictable import density as D, mass as M
     m = _state['model']
@@ -282,6 +332,7 @@ def check_element(ctx, case):
             if M.mass(iso) != im or not ctx.close(M.abundance(iso), want, rel=1e-12):
                 ctx.violation('mass.mass/abundance(%s[%d]) = %r, %r; table %r, %r'
                               % (sym, A, M.mass(iso), M.abundance(iso), im, want), A=A)
+    _check_ions(ctx, el, sym, Z, m, rho, em)
     if Z == 1:
         _check_dt_aliases(ctx, T, tname, m, rho, em, ab)
     if m.isotopes.get(Z):
